@@ -276,11 +276,12 @@ pub fn provide_liquidity(
             }
         };
 
-        // assert slippage tolerance
+        // assert slippage tolerance. The assertion sorts the assets it is given by denom, so hand it
+        // a copy: the pool's assets must stay in the order of `asset_denoms`/`asset_decimals`
         helpers::assert_slippage_tolerance(
             &liquidity_max_slippage,
             &deposits,
-            &mut pool_assets,
+            &mut pool_assets.clone(),
             pool.pool_type.clone(),
         )?;
 
